@@ -296,6 +296,13 @@ pub fn configs(thorough: bool) -> Vec<Config> {
             vec![Op::Pull],
             vec![Op::Close],
         ]});
+        // zero-byte items (the pipeline's sync tokens have size 0) with non-blocking pulls
+        out.push(Config { cap, threads: vec![
+            vec![Op::Push(1, 0), Op::Push(2, 1), Op::Push(0, 0)],
+            vec![Op::TryPull, Op::TryPull, Op::Pull],
+            vec![Op::TryPull, Op::TryPush(2, 0)],
+            vec![Op::Close],
+        ]});
         // oversized item (never fits): must not be admitted, is refused after close
         out.push(Config { cap, threads: vec![
             vec![Op::Push(2, cap + 1), Op::Push(1, 1)],
